@@ -29,8 +29,8 @@ TRUSTED = [
     '(Lean: Cargo/Spec.lean; Python oracle: spec_matches, semver_prec) - no cargo binary in the sandbox',
     'Python primitive comparisons on int/str/list are the orders the model uses (Int order, code-point lexicographic, list equality)',
     'domain: ASCII strings plus non-ASCII code points CPython classes as neither digit, letter nor space; digit runs < 4300 chars',
-    'cfg string literals containing whitespace or ( ) , = are outside the validated domain of "evaluates to its structure": '
-    'the implementation rejects them (MesonException) except for leading whitespace, which is a recorded finding',
+    'cfg: when the lexer ends in the unterminated-string error the parser raises that MesonException or an earlier syntax '
+    'error of the token prefix; model and harness do not distinguish these two messages (both are MesonException)',
 ]
 
 # ------------------------------------------------------------------ implementation adapters
@@ -64,7 +64,40 @@ def guard(f: T.Callable[[], str], mex) -> str:
         return f'ERR:PythonInternal({type(e).__name__})'
 
 
+def lex_answer(C, mex, inner: str) -> str:
+    """the tokens the generator yields, then `ERR:unterminated` if it ends by raising that error"""
+    out = []
+    try:
+        for t in C.lexer(inner):
+            out.append(show_tok(C, t))
+    except mex as e:
+        out.append('ERR:' + classify_msg(str(e)))
+    return ','.join(out)
+
+
+def lexes_unterminated(C, mex, inner: str) -> bool:
+    try:
+        for _ in C.lexer(inner):
+            pass
+    except mex as e:
+        return classify_msg(str(e)) == 'unterminated'
+    return False
+
+
+def parse_guard(C, mex, inner: str, f: T.Callable[[], str]) -> str:
+    """like guard(); when the lexer ends in the unterminated-string error the parser fails with that
+    MesonException or with an earlier syntax error of the token prefix (one-token lookahead) - the model
+    does not distinguish the two messages, so both are canonicalised to ERR:unterminated"""
+    ans = guard(f, mex)
+    if ans.startswith('ERR:') and not ans.startswith('ERR:Python') and ans != 'ERR:AssertionError' \
+            and lexes_unterminated(C, mex, inner):
+        return 'ERR:unterminated'
+    return ans
+
+
 def classify_msg(m: str) -> str:
+    if m == 'unterminated string in cfg expression':
+        return 'unterminated'
     if m == 'expected string':
         return 'expected-string'
     if m == 'expected "("':
@@ -418,8 +451,8 @@ def oracle_cfg(C, mex, inner: str, d: T.Dict[str, str]) -> T.Optional[T.Tuple[st
         return None
     strs = tree_strings(tree)
     if got == 'MesonException':
-        if ambiguous or any(c in SEP for s in strs for c in s):
-            return None   # outside the validated domain (see TRUSTED); rejected, not mis-evaluated
+        if ambiguous:
+            return None   # the property does not decide (see above)
         return f'cfg:valid-rejected:{inner}', f'eval_cfg({raw!r}) raises although the expression is well-formed'
     want = truth(tree, d)
     if got != want:
@@ -749,7 +782,8 @@ def run(ctx: Ctx) -> None:
     # ---- 4. cfg
     def cfg_case(inner: str, d: T.Dict[str, str]):
         raw = 'cfg(' + inner + ')'
-        add('evalcfg', (raw, d), f'evalcfg {enc(raw)}|{enc_cfgs(d)}', guard(lambda: str(int(C.eval_cfg(raw, d))), mex))
+        add('evalcfg', (raw, d), f'evalcfg {enc(raw)}|{enc_cfgs(d)}',
+            parse_guard(C, mex, inner, lambda: str(int(C.eval_cfg(raw, d)))))
         viol(oracle_cfg(C, mex, inner, d), {'expr': raw, 'cfgs': d})
 
     def nosp():
@@ -760,11 +794,11 @@ def run(ctx: Ctx) -> None:
     for t in t2:
         inner = render_tree(t, nosp)
         add('lexparse', inner, f'lexparse {enc(inner)}',
-            guard(lambda: 'OK:' + show_ir(C, C.parse(C.lexer(inner))), mex))
+            parse_guard(C, mex, inner, lambda: 'OK:' + show_ir(C, C.parse(C.lexer(inner)))))
         for d in CONFIGS:
             cfg_case(inner, d)
     names = ['a', 'b', 'unix', 'target_os', 'feature', 'all_', 'any1', 'nota', 'x-y', '1', 'é']
-    values = ['x', 'y', '', 'linux', 'x86_64', 'any', 'a.b', "it's", 'é']
+    values = ['x', 'y', '', 'linux', 'x86_64', 'any', 'a.b', "it's", 'é', 'x y', ' x', 'x ', '(', 'a,b', '=', ' ', 'all(a)']
     deep_strings = []
     for _ in range(ctx.scale(6000, 80000)):
         t = rand_tree(rng, 4, names, values)
@@ -772,7 +806,7 @@ def run(ctx: Ctx) -> None:
         deep_strings.append(inner)
         d = {n: rng.choice(values) for n in names if rng.random() < 0.4}
         add('lexparse', inner, f'lexparse {enc(inner)}',
-            guard(lambda: 'OK:' + show_ir(C, C.parse(C.lexer(inner))), mex))
+            parse_guard(C, mex, inner, lambda: 'OK:' + show_ir(C, C.parse(C.lexer(inner)))))
         cfg_case(inner, d)
     # token lists: exhaustive to length 4, random to length 8
     soups = [list(s) for n in range(0, 5) for s in itertools.product(TOKALPHA, repeat=n)]
@@ -802,14 +836,15 @@ def run(ctx: Ctx) -> None:
             cfg_case(inner, d)
     for inner in mal + CFG_CORPUS:
         d = rng.choice(CONFIGS)
-        add('lex', inner, f'lex {enc(inner)}', guard(lambda: ','.join(show_tok(C, t) for t in C.lexer(inner)), mex))
+        add('lex', inner, f'lex {enc(inner)}', lex_answer(C, mex, inner))
         cfg_case(inner, d)
     # the envelope
     for _ in range(ctx.scale(2000, 20000)):
         raw = rng.choice(['', 'cfg', 'cfg(', 'cfg()', 'cfg(a', 'cfg(a)', 'cfg(a) ', ' cfg(a)', 'a', 'cfg(a))', 'CFG(a)',
                           'cfg(' + rng.choice(deep_strings) + ')', rng.choice(deep_strings), rand_junk(rng, CFGCHARS, 6)])
         d = rng.choice(CONFIGS)
-        add('evalcfg', (raw, d), f'evalcfg {enc(raw)}|{enc_cfgs(d)}', guard(lambda: str(int(C.eval_cfg(raw, d))), mex))
+        add('evalcfg', (raw, d), f'evalcfg {enc(raw)}|{enc_cfgs(d)}',
+            parse_guard(C, mex, raw[4:-1], lambda: str(int(C.eval_cfg(raw, d)))))
 
     # ---- correspondence: model driver on the same inputs
     ctx.count(len(cases))
